@@ -2,6 +2,7 @@ import MiniconfVerif.Lemmas.GenTieLeaf
 import MiniconfVerif.Lemmas.GenTieDerive
 import MiniconfVerif.Lemmas.GenTieImpls
 import MiniconfVerif.Lemmas.GenTie
+import MiniconfVerif.Lemmas.GenTieWrappers
 import MiniconfVerif.Lemmas.WalkStruct
 import MiniconfVerif.Lemmas.Factor
 
@@ -188,5 +189,26 @@ theorem source_leaves_are_model (io : Io) (v : Val) (ks : KeySrc) :
   ⟨fun ty => ⟨(leafLeaf_tie io ty v ks).2.1, (leafLeaf_tie io ty v ks).2.2.1.1, (leafLeaf_tie io ty v ks).2.2.1.2⟩,
    fun vs => ⟨(strLeaf_tie io vs v ks).1, (strLeaf_tie io vs v ks).2.1.1⟩,
    fun ty op => (denyLeaf_tie io ty v ks op).1⟩
+
+open MiniconfVerif.Gen.Wrappers MiniconfVerif.GenTie in
+/-- **The value-level impls of the transparent wrappers as translated from miniconf/src/impls.rs** (`Gen.Wrappers.wrapperBeh`:
+for `Option`, `Box`, `Cow`, `Cell`, `RefCell`, `&RefCell`, `Rc`, `Arc`, `rc::Weak`, `sync::Weak`, `Mutex`, `&Mutex`, `RwLock`,
+`&RwLock` and each of `serialize_by_key` / `deserialize_by_key` / `ref_any_by_key` / `mut_any_by_key` the source implements —
+which accessor reaches the wrapped value, what is answered when it fails, or that the operation is refused) **answer what the
+model's `gateErr` says** (the "absent-container" / "failed accessor" step of the walk this property is about, at depth 0
+before any key is consumed), for every runtime state the wrapper can be in: `None`, a live `RefMut` **or a live shared
+`Ref`**, a second owner, a dangling `Weak`, a poisoned lock. What makes an accessor fail (`accFails`) is `std`'s
+documented behaviour, stated by hand. -/
+theorem source_wrappers_are_model (g : GateKind) (op : Op) (b : Beh) (s : RState)
+    (hb : wrapperBeh g op = some b) (hs : s ∈ statesOf g) :
+    behErr g op s b = gateErr g op (closedOf s) :=
+  wrappers_tie g op b s hb hs
+
+open MiniconfVerif.Gen.Wrappers MiniconfVerif.GenTie in
+/-- non-vacuity: the table has the rows the theorem speaks about, e.g. a shared borrow does not block a read -/
+example : wrapperBeh .refCell .ser = some (.via .tryBorrow (.access 0 "Borrowed")) ∧
+    behErr .refCell .ser .shrBorrowed (.via .tryBorrow (.access 0 "Borrowed")) = none ∧
+    behErr .refCell .ser .mutBorrowed (.via .tryBorrow (.access 0 "Borrowed")) = some (.access 0 "Borrowed") := by
+  refine ⟨rfl, ?_, ?_⟩ <;> simp [behErr, accFails]
 
 end MiniconfVerif.C02
